@@ -320,8 +320,30 @@ def run_hypothesis(ctx, name, strategy, body, max_examples, max_rounds=None, sta
             ctx.report(v)
             ctx.count(f'rounds:{name}')
             continue
+        except Exception as e:
+            # Hypothesis could not reproduce a failure it had seen: the failure was observed against
+            # the real code on a concrete input (kept in the replay file); state leaking between
+            # calls inside the library is one way to get here
+            if _is_flaky(e) and 'v' in last:
+                v = last['v']
+                v.message += '\n(not reproduced when Hypothesis replayed the case in the same process: the outcome depends on earlier calls)'
+                ctx.report(v)
+                ctx.count(f'flaky:{name}')
+                continue
+            raise
         return
     ctx.note(f'{name}: stopped after {max_rounds} collect-then-shrink rounds')
+
+
+def _is_flaky(e):
+    try:
+        from hypothesis.errors import Flaky
+
+        if isinstance(e, Flaky):
+            return True
+    except Exception:
+        pass
+    return any(_is_flaky(x) for x in getattr(e, 'exceptions', ()) or ())
 
 
 def guarded(fn, *args, **kwargs):
